@@ -156,6 +156,18 @@ def execute(sc):
     vms = {}
     models = {}
     fnames = {f["name"]: f for f in prog["functions"]}
+    # host-owned vector objects: created once, the *same* object is passed to every
+    # invocation that names it; the reference model gets their pristine values
+    host_pristine = sc.get("hostobjs", [])
+    host_live = [list(x) for x in host_pristine]
+
+    def vm_args(a):
+        return {n: (host_live[x["$ref"]] if isinstance(x, dict) and "$ref" in x else copy.deepcopy(x)) for n, x in a.items()}
+
+    def model_args(a):
+        return {n: (list(host_pristine[x["$ref"]]) if isinstance(x, dict) and "$ref" in x else copy.deepcopy(x))
+                for n, x in a.items()}
+
 
     def unset_view(vm, name):
         try:
@@ -240,7 +252,11 @@ def execute(sc):
             mfault = None
             mres = None
             try:
-                mres = m.invoke(op[2], dict(op[3]))
+                if any(isinstance(x, dict) and "$ref" in x and x["$ref"] >= len(host_pristine) for x in op[3].values()):
+                    continue
+                if any(isinstance(x, dict) and "$ref" in x for x in op[3].values()):
+                    bump("host_vector_object_passed")
+                mres = m.invoke(op[2], model_args(op[3]))
             except Fault as e:
                 mfault = str(e)
             except StepLimit:
@@ -259,7 +275,7 @@ def execute(sc):
             cancelled = False
             try:
                 with core.Quiet():
-                    vres = vms[v].Invoke(op[2], **copy.deepcopy(op[3]))
+                    vres = vms[v].Invoke(op[2], **vm_args(op[3]))
             except StepBudgetExceeded:
                 _counter["limit"] = None
                 return done(
@@ -290,7 +306,7 @@ def execute(sc):
                 _counter["limit"] = limit
                 try:
                     with core.Quiet():
-                        vms[v].Invoke(op[2], **copy.deepcopy(op[3]))
+                        vms[v].Invoke(op[2], **vm_args(op[3]))
                     bump("probe_cancel_vm_usable_afterwards")
                 except StepBudgetExceeded:
                     bump("probe_cancel_next_invoke_does_not_return")
